@@ -69,7 +69,7 @@ type c01Ptr struct {
 	Canonical bool // accepted by the strict spec grammar below
 }
 
-var c01StrictRE = regexp.MustCompile(`\Aversion https://git-lfs\.github\.com/spec/v1\n((?:ext-[0-9]-[A-Za-z0-9_][A-Za-z0-9_.-]* sha256:[0-9a-f]{64}\n)*)oid sha256:([0-9a-f]{64})\nsize ([1-9][0-9]*)\n\z`)
+var c01StrictRE = regexp.MustCompile(`\Aversion https://git-lfs\.github\.com/spec/v1\n((?:ext-[0-9]-[A-Za-z0-9_][A-Za-z0-9_.-]* sha256:[0-9a-f]{64}\n)*)oid sha256:([0-9a-f]{64})\nsize (0|[1-9][0-9]*)\n\z`)
 var c01ExtRE = regexp.MustCompile(`ext-([0-9])-([A-Za-z0-9_][A-Za-z0-9_.-]*) sha256:([0-9a-f]{64})\n`)
 
 // c01ParsePointer reads pointer text: first by an independent strict grammar (docs/spec.md); text that the strict
